@@ -418,12 +418,30 @@ package http2
 
 // ---- Huffman (see the C15 section for the functions' own proofs) ----
 
+//@ # Decoding tree nodes as built by (*huffmanNode).add at package initialisation: an inner node has a 256-entry table,
+//@ # a leaf has none and stands for a code whose last fragment is 1..8 bits long
+//@ heapinvariant huffmanNode shape: (self.sub == nil || len(self.sub) == 256) && (self.sub == nil ==> self.codeLen >= 1 && self.codeLen <= 8)
+
 //@ func HuffmanDecode
-//@ props C15 C16
+//@ props C15 C16 C03
+//@ requires root: rootHuffmanNode != nil && len(rootHuffmanNode.sub) == 256
 //@ modifies capacity(dst)
-//@ opt body=skip
+//@ loop 0: invariant keep: len(dst) >= len(old(dst)) && dst[:len(old(dst))] == old(dst)
+//@ loop 0: invariant node: root != nil && len(root.sub) == 256 && bits >= 0 && bits < 8
+//@ loop 0: invariant place: (samearray(dst, old(dst)) && offset(dst) == offset(old(dst)) && cap(dst) == cap(old(dst))) || fresh(dst)
+//@ # the output is bounded by the input (C16): every symbol uses up at least one bit of it
+//@ loop 0: invariant out: (len(dst) - len(old(dst))) + bits <= 8 * (rangeindex + 1)
+//@ loop 1: invariant keep: len(dst) >= len(old(dst)) && dst[:len(old(dst))] == old(dst)
+//@ loop 1: invariant node: root != nil && len(root.sub) == 256 && bits >= 0 && bits < 16
+//@ loop 1: invariant out: (len(dst) - len(old(dst))) + bits <= 8 * (rangeindex + 1)
+//@ loop 1: invariant place: (samearray(dst, old(dst)) && offset(dst) == offset(old(dst)) && cap(dst) == cap(old(dst))) || fresh(dst)
+//@ loop 2: invariant keep: len(dst) >= len(old(dst)) && dst[:len(old(dst))] == old(dst)
+//@ loop 2: invariant node: root != nil && len(root.sub) == 256 && bits >= 0 && bits < 8
+//@ loop 2: invariant out: (len(dst) - len(old(dst))) + bits <= 8 * len(src)
+//@ loop 2: invariant place: (samearray(dst, old(dst)) && offset(dst) == offset(old(dst)) && cap(dst) == cap(old(dst))) || fresh(dst)
 //@ ensures keep: r1 == nil ==> len(r0) >= len(dst) && r0[:len(dst)] == old(dst)
 //@ ensures err: r1 != nil ==> r0 == nil
+//@ ensures bound: r1 == nil ==> len(r0) - len(dst) <= 8 * len(src)
 
 //@ func HuffmanEncode
 //@ props C15 C04
